@@ -78,6 +78,27 @@ def _conversion_sources(k, F, lit_bb):
             hit = rest if len(rest) == 1 else []
         if len(hit) != 1:
             continue
+        # a *conversion*: every arm of the switch does nothing but produce a literal (no call, no other store) - a `match` on a readiness
+        # or decision enum whose arms act and then answer is not one
+
+        def pure_literal_arm(tb_):
+            cur, steps = tb_, 0
+            while steps < 6:
+                blk = k.blocks[cur]
+                if any(s_['k'] == 'assign' and not (s_['rv']['k'] == 'use' and s_['rv']['op']['k'] == 'const') for s_ in blk['stmts']):
+                    return False
+                if any(s_['k'] == 'assign' for s_ in blk['stmts']):
+                    return True
+                tt_ = blk['term']
+                if not tt_ or tt_['k'] not in ('goto', 'falseedge') or blk['cleanup']:
+                    return False
+                cur = tt_['target']
+                steps += 1
+            return False
+        arms = [tb for v, tb in tg] + [t['otherwise']]
+        arms = [a_ for a_ in arms if k.blocks[a_]['term'] and k.blocks[a_]['term']['k'] != 'unreachable']
+        if len(arms) < 2 or not all(pure_literal_arm(a_) for a_ in arms):
+            continue
         want = hit[0]
         names = dict((str(v_['discr']), v_['name']) for v_ in adt['variants'])
         # every definition of X (through moves, wrapper payloads, inlined returns) that builds that variant
@@ -2064,13 +2085,15 @@ def c12(ctx):
                         closed_false = t['targets'][0][1]
             from .ordq import feasible_reach
 
-            def only_after(edge, other, b):
+            closed_sw = [bb for bb, b in enumerate(pn.blocks) if b['term'] and b['term']['k'] == 'switch' and not b['cleanup'] and b['term']['otherwise'] == closed_true]
+
+            def only_after(edge, other, b, test_bb):
                 # b is reached only through `edge`: by dominance, or - when the test result travelled through a helper's return value - because
-                # no feasible path leads from the opposite edge to b
-                return edom(pn, edge, b) or (other is not None and not feasible_reach(pn, other, {b}, set()))
+                # the test itself dominates b and no feasible path leads from the opposite edge to b
+                return edom(pn, edge, b) or (other is not None and test_bb is not None and dominates(pn, test_bb, b) and not feasible_reach(pn, other, {b}, set()))
             if none_e is None or not ends or closed_true is None:
                 out.append(undecided(R, key, 'shape not recognised'))
-            elif all(only_after(none_e, some_e, b) and only_after(closed_true, closed_false, b) for b in ends):
+            elif all(only_after(none_e, some_e, b, pops[0][0]) and only_after(closed_true, closed_false, b, closed_sw[0] if closed_sw else None) for b in ends):
                 out.append(ok(R, key, 'the stream ends only when nothing is buffered and the core is closed', fn=pn.name))
             else:
                 out.append(bad(R, key, 'the consumer can be told the stream ended while outputs are still buffered or the input is still open', fn=pn.name))
